@@ -79,4 +79,28 @@ def fitsB (method fn : String) : Bool :=
   | some o => decide (Fits method o)
   | none => false
 
+/-! ### the rate-coefficient arrays of the functions that evaluate the right-hand side and the Jacobian -/
+
+/-- the functions that call `EvalRates` (and the thermal rate functions), per back-end -/
+def evaluators : List (String × String) :=
+  [("dense", "Fex"), ("dense", "Jac"), ("sparse", "Fex"), ("sparse", "Jac"), ("cusparse", "FexKernel"), ("cusparse", "JacKernel"),
+   ("rosenbrock4", "Fex::operator()"), ("rosenbrock4", "Jac::operator()")]
+
+/-- the size macro an array has to be declared with: `EvalRates` writes `k[0 … NREACTIONS-1]`, the thermal functions
+    `kh[0 … NHEATPROCS-1]` and `kc[0 … NCOOLPROCS-1]` -/
+def sizeOf (name : String) : String :=
+  if name = "k" then "NREACTIONS" else if name = "kh" then "NHEATPROCS" else "NCOOLPROCS"
+
+/-- one declaration is in order: the right size, an automatic array (a `static` one is zeroed once per process, not once per
+    call: a rate left by an earlier call inside a temperature window survives a later call outside it), zero-initialised -/
+def arrayOk (r : String × String × String × String × Bool × String) : Bool :=
+  r.2.2.2.1 == sizeOf r.2.2.1 && !r.2.2.2.2.1 && r.2.2.2.2.2 == "0.0"
+
+/-- every evaluator declares each of the three arrays exactly once, and in order -/
+def evaluatorOk (bf : String × String) : Bool :=
+  ["k", "kh", "kc"].all fun nm =>
+    match rateArrays.filter (fun r => r.1 == bf.1 && r.2.1 == bf.2 && r.2.2.1 == nm) with
+    | [r] => arrayOk r
+    | _ => false
+
 end Naunet.SolverObj
